@@ -136,7 +136,8 @@ PROPS["C01"] = dict(
                "correspondence is differential (n <= 7).",
     technique="Lean 4 proof (least-fixpoint argument over a generic restriction algebra, instantiated with the verified BDD store) + correspondence check + brute-force specification oracle",
     jobs=[Job("adf", 1200, 40000, size=6, size_thorough=7, extra=("sem",),
-              relevant=heads("build", "adopt", "grounded", "adump", "wfcheck"), nontrivial=nt_adf)],
+              relevant=heads("build", "adopt", "grounded", "adump", "wfcheck"), nontrivial=nt_adf),
+          Job("adf", 0, 1, size=2, extra=("exh2",), relevant=heads("build", "adopt", "grounded", "adump", "wfcheck"), nontrivial=lambda st: True, label="exhaustive-2-statements")],
     rule=SEM_RULE,
     assumptions=["well-formed ADFs (every statement declared with exactly one ac, atoms declared); <= 2^16 statements for biodivine"],
 )
@@ -152,7 +153,8 @@ PROPS["C02"] = dict(
                "correspondence differential (n <= 7).",
     technique="Lean 4 proof (filter = fixpoint test; iterator theorem; least-fixpoint lower bound) + handle-exact correspondence + verified brute-force specification",
     jobs=[Job("adf", 1200, 40000, size=6, size_thorough=7, extra=("sem",),
-              relevant=heads("build", "adopt", "complete", "adump", "wfcheck"), nontrivial=nt_adf)],
+              relevant=heads("build", "adopt", "complete", "adump", "wfcheck"), nontrivial=nt_adf),
+          Job("adf", 0, 1, size=2, extra=("exh2",), relevant=heads("build", "adopt", "complete", "adump", "wfcheck"), nontrivial=lambda st: True, label="exhaustive-2-statements")],
     rule=SEM_RULE,
     assumptions=["well-formed ADFs"],
 )
@@ -169,6 +171,7 @@ PROPS["C03"] = dict(
     technique="Lean 4 proof (reduct / least-fixpoint characterisation of the stability test, iterator theorem) + handle-exact correspondence + verified brute-force specification",
     jobs=[Job("adf", 1200, 40000, size=6, size_thorough=7, extra=("sem",),
               relevant=heads("build", "adopt", "stable", "stablepre", "stablerew", "stablerew2", "adump", "wfcheck"), nontrivial=nt_adf),
+          Job("adf", 0, 1, size=2, extra=("exh2",), relevant=heads("build", "adopt", "stable", "stablepre", "stablerew", "stablerew2", "adump", "wfcheck"), nontrivial=lambda st: True, label="exhaustive-2-statements"),
           Job("adf", 200, 8000, size=5, size_thorough=6, extra=("present",), relevant=heads("present", "presented"), nontrivial=nt_adf, label="adf-orders")],
     rule=SEM_RULE,
     assumptions=["well-formed ADFs"],
@@ -190,7 +193,8 @@ PROPS["C04"] = dict(
                "the D1 replay is a #guard evaluation, not a kernel-checked lemma (Std.HashMap does not reduce in the kernel).",
     technique="Lean 4 proof (generic branching-search machine instantiated with the concrete steps; invariants WF + model-relative residuals + will_be) + handle-exact correspondence + brute-force specification oracle",
     jobs=[Job("adf", 1500, 60000, size=6, size_thorough=7, extra=("count",),
-              relevant=heads("build", "adopt", "stmca", "stmcb", "adump", "wfcheck"), nontrivial=nt_adf)],
+              relevant=heads("build", "adopt", "stmca", "stmcb", "adump", "wfcheck"), nontrivial=nt_adf),
+          Job("adf", 0, 1, size=2, extra=("exh2",), relevant=heads("build", "adopt", "stmca", "stmcb", "adump", "wfcheck"), nontrivial=lambda st: True, label="exhaustive-2-statements")],
     rule=ADF_GEN + "stable_count_optimisation_heu_a/b on native, hybrid and pre-grounded hybrid objects in both call orders; emitted vectors (in order) and node tables compared with the Lean model, "
          "the multiset of answers with Spec.stableAll; non-trivial = distinct ADF with >= 2 statements and >= 5 nodes",
     assumptions=["well-formed ADFs"],
@@ -211,7 +215,8 @@ PROPS["C05"] = dict(
                "specification and the watchdog; sender drop is Rust ownership, observed; the model's tie to adf.rs is differential (n <= 7, plus one large many-model framework).",
     technique="Lean 4 proof (safety invariant + well-founded big-step termination on a generic machine, closure laws of the concrete store, lock-step simulation to the concrete loop) + handle-exact correspondence incl. heuristic traces + specification oracle + hang watchdog",
     jobs=[Job("adf", 700, 30000, size=6, size_thorough=7, extra=("ng",), timeout=300,
-              relevant=heads("build", "adopt", "ng", "ngch", "ngbig", "adump", "wfcheck"), nontrivial=nt_adf)],
+              relevant=heads("build", "adopt", "ng", "ngch", "ngbig", "adump", "wfcheck"), nontrivial=nt_adf),
+          Job("adf", 0, 1, size=2, extra=("exh2",), relevant=heads("build", "adopt", "ng", "adump", "wfcheck"), nontrivial=lambda st: True, label="exhaustive-2-statements", timeout=300)],
     rule=ADF_GEN + "stable_nogood / two_val_nogood_channel / stable_nogood_channel with Simple, both counting heuristics, 4 scripted custom heuristics (PRNG-chosen undecided statement and value per call, "
          "trace logged) and 3 Rand seeds per ADF, on native and bridged objects; outputs in order + traces + node tables vs the Lean model, multisets vs Spec; non-trivial = distinct ADF with >= 2 statements and >= 5 nodes",
     assumptions=["well-formed ADFs; custom heuristics always propose an undecided statement with a truth value"],
@@ -541,6 +546,8 @@ def run_job(prop, job, tier, seed, fset, factor=1, extended=False):
     total = None
     done = 0
     k = 0
+    if cases == 0:
+        return dict(mism=[], cases=0, records=0, nontrivial=set(), distinct=set(), samples=[], status="ok", dist={})
     while done < cases:
         nk = min(CHUNK, cases - done)
         sk = seed if k == 0 else seed * 100003 + k
